@@ -1097,6 +1097,7 @@ Notes:
         # check termination before 'stepping'
         if len(self._stepmon):
             msg = self.Terminated(disp=disp, info=True) or None
+            if msg: self.Finalize() # then cleanup/finalize
         else: msg = None
 
         # if not terminated, then take a step
